@@ -6,8 +6,8 @@
     The interleaved selection is the repaired one (at most n probes, may stay on
     the only unfinished source); the unrepaired loop of the pinned tree is kept
     as [next_pinned] for [interleaved_pinned_diverges].  Definitions only. *)
+From TU Require Import RNG_Model.
 From TU Require Import Base.
-From TU Require RNG_Model.
 
 Inductive strategy := Sequential | Interleaved | Weighted.
 Inductive err := OutOfFuel | BadOracle | AssertFail | CtorErr.
